@@ -38,3 +38,19 @@ def report(pid, name, res, script):
     ev = {"what": name, "status": "bounded (NOT a proof)", "cases": res.get("cases"), "distinct_cases": res.get("distinct"), "checks": res.get("reads") or res.get("checks"),
           "violating_cases": len(res.get("bad_cases", [])), "wall_s": res.get("wall_s"), "samples": res.get("samples", [])[:2], "errors": res.get("errors", [])[:3]}
     return lines, ev, None
+
+
+def model_differential(n, seed):
+    """spot check of the assumed library contracts against the real numpy / jax functions (tools/model_diff.py)"""
+    out = tempfile.NamedTemporaryFile(suffix=".json", delete=False).name
+    try:
+        p = subprocess.run(["python3-vt", "-W", "ignore", os.path.join(VERIF, "tools", "model_diff.py"), "--n", str(n), "--seed", str(seed), "--out", out], capture_output=True, text=True, timeout=900)
+        try:
+            d = json.load(open(out))
+        except Exception:
+            return {"error": (p.stderr or p.stdout)[-400:]}
+        return {"cases": d["cases"], "checked": sum(v["checked"] for v in d["per_op"].values()), "disagreements": sum(v["disagree"] for v in d["per_op"].values()),
+                "ops": sorted(d["per_op"]), "first_disagreements": d["disagreements"][:3]}
+    finally:
+        if os.path.exists(out):
+            os.unlink(out)
